@@ -155,7 +155,16 @@ def run(ctx):
                             f_ = dict(clause="hourly_predict_raises", zone=zone, transition_utc=str(t), shift_seconds=shift,
                                       with_observed=with_obs, first_local_date=str(d0), days=days,
                                       error=f"{type(e).__name__}: {str(e)[:100]}")
-                            if abs(shift) not in (0, 3600) and any(e_["id"] == "C06-F1" and e_.get("status") == "finding" for e_ in ctx.get("findings", [])):
+                            groups_ = [g_ for _, g_ in d.groupby(d.index.date)]
+                            # a day that lost exactly its LAST hour to the clock change (not a frame that simply ends mid-day)
+                            lost_2300 = any(len(g_) == 23 and int(g_.index.hour.max()) == 22 and sorted(g_.index.hour) == list(range(23))
+                                            for g_ in (groups_ if end_trim == 0 else groups_[:-1]))
+                            if abs(shift) == 3600 and lost_2300 and any(e_["id"] == "C06-F4" and e_.get("status") == "finding" for e_ in ctx.get("findings", [])):
+                                # C06-F4: the clock change removes 23:00 of a local day (transition at 23:00 local: Nuuk / Scoresbysund rules)
+                                dd_ = res["finding_instances"].setdefault("C06-F4", dict(count=0, example=None))
+                                dd_["count"] += 1
+                                dd_["example"] = dd_["example"] or f_
+                            elif abs(shift) not in (0, 3600) and any(e_["id"] == "C06-F1" and e_.get("status") == "finding" for e_ in ctx.get("findings", [])):
                                 # C06-F1: clock changes that are not one hour (30 minutes: Caracas 2007, Lord Howe; 2 hours: Troll)
                                 dd_ = res["finding_instances"].setdefault("C06-F1", dict(count=0, example=None))
                                 dd_["count"] += 1
